@@ -58,6 +58,11 @@ func c15RuleSets(up string) []*rconfig.RuleSet {
 		rs.Rules = append(rs.Rules, rconfig.Rule{ID: rw.ID, EncodedSlashesHandling: rconfig.EncodedSlashesHandling(rw.Slashes),
 			Matcher: rconfig.Matcher{Routes: []rconfig.Route{{Path: "/" + rw.ID + "/**"}}}, Backend: be,
 			Execute: []config.MechanismConfig{{"authenticator": "anon"}, {"finalizer": "hdrs"}, {"finalizer": "roles2"}}})
+		if i%3 == 2 {
+			// every third rule has a pipeline that produces one of the forwarding headers itself
+			rl := &rs.Rules[len(rs.Rules)-1]
+			rl.Execute = append(rl.Execute, config.MechanismConfig{"finalizer": "fwdproto"})
+		}
 		if i%2 == 1 {
 			// every second rule has a pipeline which reads the request body (heimdall then buffers it instead of streaming it)
 			rl := &rs.Rules[len(rs.Rules)-1]
@@ -205,6 +210,8 @@ func TestC15(t *testing.T) {
 			hs["X-Roles"] = "pipeline-first"
 			c.Prototypes.Finalizers = append(c.Prototypes.Finalizers, config.Mechanism{ID: "hdrs", Type: "header", Config: config.MechanismConfig{"headers": hs}})
 			c.Prototypes.Finalizers = append(c.Prototypes.Finalizers, config.Mechanism{ID: "roles2", Type: "header", Config: config.MechanismConfig{"headers": map[string]any{"X-Roles": "pipeline-second"}}})
+			c.Prototypes.Finalizers = append(c.Prototypes.Finalizers, config.Mechanism{ID: "fwdproto", Type: "header",
+				Config: config.MechanismConfig{"headers": map[string]any{"X-Forwarded-Proto": "pipeline-proto"}}})
 			c.Prototypes.Finalizers = append(c.Prototypes.Finalizers, config.Mechanism{ID: "bodyreader", Type: "header",
 				Config: config.MechanismConfig{"headers": map[string]any{"X-Verif-Body-Read": "{{ if .Request.Body }}non-empty{{ else }}empty{{ end }}"}}})
 			if trusted {
@@ -237,7 +244,8 @@ func TestC15(t *testing.T) {
 		if in.peer != "127.0.0.1" {
 			r.Count("requests_from_an_ipv6_peer", 1)
 		}
-		rw := c15Rewrites[rng.IntN(len(c15Rewrites))]
+		rwIdx := rng.IntN(len(c15Rewrites))
+		rw := c15Rewrites[rwIdx]
 		path := c15Path(rng, rw)
 		query := c15Query(rng)
 		target := path
@@ -276,6 +284,18 @@ func TestC15(t *testing.T) {
 					hdrs = append(hdrs, app.Hdr{Name: randCase(rng, name), Value: "from-client-" + fmt.Sprint(k)})
 				}
 			}
+		}
+		if rng.IntN(6) == 0 {
+			// the client declares pipeline header names hop-by-hop (with or without sending such a header)
+			var tokens []string
+			for k := 1 + rng.IntN(2); k > 0; k-- {
+				tokens = append(tokens, randCase(rng, names[rng.IntN(len(names))]))
+			}
+			if rng.IntN(2) == 0 {
+				tokens = append(tokens, "keep-alive")
+			}
+			hdrs = append(hdrs, app.Hdr{Name: "Connection", Value: strings.Join(tokens, ", ")})
+			r.Count("requests_declaring_pipeline_headers_hop_by_hop", 1)
 		}
 		if len(body) > 0 && rng.IntN(4) == 0 {
 			hdrs = append(hdrs, app.Hdr{Name: app.HdrChunked, Value: "1"}) // same body, no announced length
@@ -435,6 +455,13 @@ func TestC15(t *testing.T) {
 		}
 		if collide {
 			r.Count("colliding_header_requests", 1)
+		}
+		if rwIdx%3 == 2 {
+			// the pipeline of this rule produces X-Forwarded-Proto itself
+			r.Count("requests_through_a_pipeline_producing_a_forwarding_header", 1)
+			if got := h.Header["X-Forwarded-Proto"]; len(got) != 1 || got[0] != "pipeline-proto" {
+				r.Violation("pipeline-header-not-winning:X-Forwarded-Proto", fmt.Sprintf("upstream X-Forwarded-Proto = %q, pipeline value %q (client sent %q)", got, "pipeline-proto", fwd["X-Forwarded-Proto"]), cs)
+			}
 		}
 		// --- forwarding headers ---
 		for _, name := range []string{"X-Forwarded-Method", "X-Forwarded-Uri", "X-Forwarded-Path"} {
